@@ -23,7 +23,7 @@ import (
 )
 
 func TestMain(m *testing.M) {
-	vstat.Rule("Breaker driven to tripped under a frozen clock (gate as handler), then generated arrival patterns during recovery: bursts at one instant, trickles, idle gaps (also before the first post-fallback request), recovery duration from the whole-ms grid, re-admitted requests completing 200 or with failures (re-trip branch), up to 3 trip/recovery cycles per case. Oracle: recovery begins with the first request after T+fallback (it counts); with a passed, d refused, e elapsed, D recovery duration: after every request 2*D*a <= e*(a+d) and a request is refused only if 2*D*(a+1) >= e*(a+d+1) (exact integers; cases within 1e-9 of equality are not asserted because the code computes in float64); recovering->standby only after start+D, the first request after it passes and everything passes from then on, on-standby ran exactly once per cycle; a re-trip shields for a full fallback duration again. Non-trivial: >= 10 requests during a recovery with both outcomes present at >= 3 distinct instants. Later additions: a third of the drivers have side effects that hang; TestC12_LatencyRecovery (latency condition after 70-140 s of healthy history so the 6x10 s window has wrapped, slow phase until the trip, then only fast successful re-admitted requests: no second trip, ramp respected, standby afterwards); TestC12_ConcurrentBurst (bursts of 2-12 requests on real goroutines at one frozen instant of the recovery, the breaker's Logger is a bounded scheduler-yield rendezvous; after every burst passed/total since the recovery began is on or below the ramp). TestC12_RetripThenHeal: 1-3 recoveries whose first admitted probe fails (re-trip), then a healed backend: no trip on only successful probes, standby after the recovery period; NetworkErrorRatio/ResponseCodeRatio thresholds 0.2-0.5. Odd recovery durations (130/750/1250/3333 ms).")
+	vstat.Rule("Breaker driven to tripped under a frozen clock (gate as handler), then generated arrival patterns during recovery: bursts at one instant, trickles, idle gaps (also before the first post-fallback request), recovery duration from the whole-ms grid, re-admitted requests completing 200 or with failures (re-trip branch), up to 3 trip/recovery cycles per case. Oracle: recovery begins with the first request after T+fallback (it counts); with a passed, d refused, e elapsed, D recovery duration: after every request 2*D*a <= e*(a+d) and a request is refused only if 2*D*(a+1) >= e*(a+d+1) (exact integers; cases within 1e-9 of equality are not asserted because the code computes in float64); recovering->standby only after start+D, the first request after it passes and everything passes from then on, on-standby ran exactly once per cycle; a re-trip shields for a full fallback duration again. Non-trivial: >= 10 requests during a recovery with both outcomes present at >= 3 distinct instants. Later additions: a third of the drivers have side effects that hang; TestC12_LatencyRecovery (latency condition after 70-140 s of healthy history so the 6x10 s window has wrapped, slow phase until the trip, then only fast successful re-admitted requests: no second trip, ramp respected, standby afterwards); TestC12_ConcurrentBurst (bursts of 2-12 requests on real goroutines at one frozen instant of the recovery, the breaker's Logger is a bounded scheduler-yield rendezvous; after every burst passed/total since the recovery began is on or below the ramp). TestC12_RetripThenHeal: 1-3 recoveries whose first admitted probe fails (re-trip), then a healed backend: no trip on only successful probes, standby after the recovery period; NetworkErrorRatio/ResponseCodeRatio thresholds 0.2-0.5. Odd recovery durations (130/750/1250/3333 ms). TestC12_DeadAgain: recoveries of 60 s-12 h, trickle spacing 100 ms-1.1 s (minutes for the 12 h case), healthy for 0-45 s, then every admitted request fails with 502/504, optionally after hanging 30 ms-3 h; decisive completion = previous completion more than a check period back and last success more than 11 s back; the breaker must then read tripped. Non-trivial: a decisive completion or re-trip was reached.")
 	vstat.Main(m.Run)
 }
 
@@ -806,5 +806,98 @@ func TestC12_NoRecoveryPeriod(t *testing.T) {
 			}
 		}
 		vstat.Case(fmt.Sprintf("norec|%v|%v", F, R), true, []string{"recovery-duration<=0"}, map[string]any{"fallback": F.String(), "recovery": R.String()})
+	})
+}
+
+// TestC12_DeadAgain: "if it matches, the breaker trips again and shields the backend anew" - also
+// when the backend was healthy for the first part of a long recovery and died later, and also
+// when a re-admitted request hangs for hours before it fails. Requests trickle in at sub-second
+// spacing (the ramp admits some); from a chosen instant on every admitted one fails with a
+// network error. A failing completion is decisive when (a) the previous completion is more than
+// a check period back (so the condition is evaluated) and (b) the last successful completion is
+// more than 11 s back (the 10 x 1 s statistics window holds failures only, the ratio is 1): right
+// after a decisive completion the breaker must be tripped.
+func TestC12_DeadAgain(t *testing.T) {
+	rapid.Check(t, func(t *rapid.T) {
+		F := rapid.SampledFrom([]time.Duration{500 * time.Millisecond, time.Second}).Draw(t, "fallback")
+		R := rapid.SampledFrom([]time.Duration{60 * time.Second, 90 * time.Second, 2 * time.Minute, 12 * time.Hour}).Draw(t, "recovery")
+		P := rapid.SampledFrom([]time.Duration{time.Millisecond, 50 * time.Millisecond, 100 * time.Millisecond}).Draw(t, "checkPeriod")
+		d := cbh.New(t, "NetworkErrorRatio() > 0.5", F, R, P, time.Duration(rapid.Int64Range(0, int64(time.Second)-1).Draw(t, "phase")))
+		defer d.Close()
+		one := func(status int, hang time.Duration) bool {
+			if !d.Start() {
+				return false
+			}
+			if hang > 0 {
+				d.Advance(hang)
+			}
+			d.Finish(len(d.InFlight)-1, status)
+			return true
+		}
+		for i := 0; i < 10 && d.State() != "tripped"; i++ {
+			one(502, 0)
+			d.Advance(cbh.Step(2))
+		}
+		if d.State() != "tripped" {
+			t.Fatalf("INFRA: could not trip the breaker\n%s", d.History())
+		}
+		d.Advance(cbh.Step(int64(F/time.Millisecond) + 1))
+		recStart := d.Now
+		gap := rapid.SampledFrom([]time.Duration{100 * time.Millisecond, 130 * time.Millisecond, 250 * time.Millisecond, 400 * time.Millisecond, 900 * time.Millisecond, 1100 * time.Millisecond}).Draw(t, "spacing") + time.Microsecond
+		healthyFor := rapid.SampledFrom([]time.Duration{0, 5 * time.Second, 12 * time.Second, 30 * time.Second, 40 * time.Second, 45 * time.Second}).Draw(t, "healthyFor")
+		hang := rapid.SampledFrom([]time.Duration{0, 0, 30 * time.Millisecond, 1500 * time.Millisecond}).Draw(t, "failAfter")
+		if R == 12*time.Hour {
+			healthyFor = rapid.SampledFrom([]time.Duration{0, 0, 20 * time.Minute}).Draw(t, "healthyForLong")
+			gap = rapid.SampledFrom([]time.Duration{time.Minute, 10 * time.Minute}).Draw(t, "spacingLong") + time.Microsecond
+			hang = rapid.SampledFrom([]time.Duration{0, 30 * time.Minute, 2 * time.Hour, 3 * time.Hour}).Draw(t, "failAfterLong")
+		}
+		lastOK, prevDone := time.Duration(-1<<62), d.Now-time.Hour
+		okCount := 0
+		for d.Now < recStart+healthyFor {
+			if one(200, 0) {
+				lastOK, prevDone = d.Now, d.Now
+				okCount++
+			}
+			if d.State() != "recovering" {
+				t.Fatalf("healthy phase of a %v recovery (began +%v): state %s at +%v after only successful re-admitted requests\n%s", R, recStart, d.State(), d.Now, d.History())
+			}
+			d.Advance(gap)
+		}
+		deadSince := d.Now
+		status := rapid.SampledFrom([]int{502, 504}).Draw(t, "failure")
+		decisive, failed := false, 0
+		for i := 0; i < 2000 && d.Now+hang+gap < recStart+R && d.Now < deadSince+40*time.Second+4*hang+20*gap; i++ {
+			if one(status, hang) {
+				failed++
+				c := d.Now
+				evaluated, failuresOnly := c > prevDone+P, c-lastOK > 11*time.Second
+				prevDone = c
+				if d.State() == "tripped" {
+					break
+				}
+				if evaluated && failuresOnly {
+					decisive = true
+					t.Fatalf("recovery of %v began +%v; the backend was healthy for %v (%d successful re-admitted requests, the last at +%v) and has failed every re-admitted request since +%v (%d so far, each after %v). The completion at +%v is more than a check period (%v) after the previous one and more than 11 s after the last success, so NetworkErrorRatio() is 1 over the window, yet the breaker is %s instead of tripped again\n%s",
+						R, recStart, healthyFor, okCount, lastOK, deadSince, failed, hang, c, P, d.State(), d.History())
+				}
+			}
+			d.Advance(gap)
+		}
+		retripped := d.State() == "tripped"
+		if retripped {
+			decisive = true
+		}
+		var cl []string
+		if healthyFor > 0 {
+			cl = append(cl, "healthy-first-dead-later")
+		}
+		if hang >= time.Hour {
+			cl = append(cl, "probe-hangs-for-hours-then-fails")
+		}
+		if !retripped {
+			cl = append(cl, "no-decisive-completion")
+		}
+		vstat.Case(fmt.Sprintf("dead|%v|%v|%v|%v|%v|%v", F, R, P, gap, healthyFor, hang), decisive && failed > 0, cl,
+			map[string]any{"recovery": R.String(), "check_period": P.String(), "spacing": gap.String(), "healthy_for": healthyFor.String(), "fail_after": hang.String(), "successes": okCount, "failures_until_retrip": failed, "retripped_after": (d.Now - deadSince).String()})
 	})
 }
